@@ -48,9 +48,11 @@ def gen_cases(rng, tier):
                               "noise": rng.random() < 0.4, "seed": rng.getrandbits(32)})
                 L = rng.uniform(0.5, 100.0)
                 L2 = rng.uniform(0.5, 100.0)
-                b2 = rng.choice([-1, 1]) * rng.uniform(0.05, 4.0) * Dscale / L
+                b2 = rng.choice([-1, 1, 1, -1, 0]) * rng.uniform(0.05, 4.0) * Dscale / L
                 b3 = rng.choice([-1, 0, 1]) * rng.uniform(0.05, 2.0) * 6.0 / (np.pi * fs * 1e-12) ** 3 / L
-                alpha = rng.choice([0.0, 0.0, rng.uniform(0.0, 0.5)])
+                alpha = rng.choice([0.0, rng.uniform(0.0, 0.5), rng.uniform(0.0, 0.5)])
+                if b2 == 0 and rng.random() < 0.7:
+                    b3 = 0.0          # dispersion-free span (loss only, or nothing at all)
                 cases.append({"kind": "fiber", "n": n, "npol": npol, "sps": sps, "R": R, "alpha": alpha, "b2": b2, "b3": b3,
                               "L": L, "L2": L2, "noise": rng.random() < 0.4, "seed": rng.getrandbits(32)})
     for n in ([5, 8] if tier == "quick" else lens):
